@@ -22,6 +22,15 @@ EXTENDS Integers, Sequences, FiniteSets, TLC
 
 IntSR == {"Bool", "Sat2", "Sat3"}
 IsIntSR(sr) == sr \in IntSR
+(* "BM2": 2x2 Boolean matrices <<a, b, c, d>> = [[a, b], [c, d]] with (or, matrix product): a finite, closed,   *)
+(* idempotent and NON-COMMUTATIVE semiring; path weights must be multiplied in path order to be right in it.   *)
+FiniteSR == IntSR \cup {"BM2"}
+IsFinSR(sr) == sr \in FiniteSR
+Or(x, y) == IF x + y > 0 THEN 1 ELSE 0
+BMul(x, y) == <<Or(x[1] * y[1], x[2] * y[3]), Or(x[1] * y[2], x[2] * y[4]),
+                Or(x[3] * y[1], x[4] * y[3]), Or(x[3] * y[2], x[4] * y[4])>>
+BAdd(x, y) == <<Or(x[1], y[1]), Or(x[2], y[2]), Or(x[3], y[3]), Or(x[4], y[4])>>
+BOne == <<1, 0, 0, 1>>
 Cap(sr) == CASE sr = "Bool" -> 1 [] sr = "Sat2" -> 2 [] sr = "Sat3" -> 3
 
 Abs(n) == IF n < 0 THEN -n ELSE n
@@ -83,16 +92,19 @@ ApproxEq(want, m) ==
 REq(want, have) == IF IsFx(have) THEN ApproxEq(want, have[1]) ELSE want = have
 
 Zero(sr) == CASE sr \in IntSR -> 0
+              [] sr = "BM2" -> <<0, 0, 0, 0>>
               [] sr \in {"Rat", "MaxTimes"} -> RZero
               [] sr = "MaxPlus" -> <<0>>
               [] sr = "Expect" -> <<RZero, RZero>>
 One(sr) ==  CASE sr \in IntSR -> 1
+              [] sr = "BM2" -> BOne
               [] sr \in {"Rat", "MaxTimes"} -> ROne
               [] sr = "MaxPlus" -> <<1, 0>>
               [] sr = "Expect" -> <<ROne, RZero>>
 
 Add(sr, a, b) ==
   CASE sr \in IntSR -> LET c == Cap(sr) IN IF a + b > c THEN c ELSE a + b
+    [] sr = "BM2" -> BAdd(a, b)
     [] sr = "Rat" -> RAdd(a, b)
     [] sr = "MaxTimes" -> IF RLeq(a, b) THEN b ELSE a
     [] sr = "MaxPlus" -> IF a = <<0>> THEN b ELSE IF b = <<0>> THEN a
@@ -101,19 +113,21 @@ Add(sr, a, b) ==
 
 Mul(sr, a, b) ==
   CASE sr \in IntSR -> LET c == Cap(sr) IN IF a * b > c THEN c ELSE a * b
+    [] sr = "BM2" -> BMul(a, b)
     [] sr \in {"Rat", "MaxTimes"} -> RMul(a, b)
     [] sr = "MaxPlus" -> IF a = <<0>> \/ b = <<0>> THEN <<0>> ELSE <<1, a[2] + b[2]>>
     [] sr = "Expect" -> <<RMul(a[1], b[1]), RAdd(RMul(a[1], b[2]), RMul(b[1], a[2]))>>
 
 (* star(x) = sum_k x^k; defined where the series converges *)
 StarDefined(sr, a) ==
-  CASE sr \in IntSR -> TRUE
+  CASE sr \in FiniteSR -> TRUE
     [] sr = "Rat" -> RLt(a, ROne) /\ RLt(<<-1, 1>>, a)
     [] sr = "MaxTimes" -> RLeq(a, ROne)
     [] sr = "MaxPlus" -> a = <<0>> \/ a[2] <= 0
     [] sr = "Expect" -> RLt(a[1], ROne) /\ RLt(<<-1, 1>>, a[1])
 Star(sr, a) ==
   CASE sr \in IntSR -> IF a = 0 THEN 1 ELSE Cap(sr)
+    [] sr = "BM2" -> BAdd(BOne, BAdd(a, BMul(a, a)))
     [] sr = "Rat" -> RInv(RSub(ROne, a))
     [] sr = "MaxTimes" -> ROne
     [] sr = "MaxPlus" -> <<1, 0>>
@@ -137,6 +151,7 @@ WEq2(sr, want, have) ==
 (* the carrier sets used by model checking configurations *)
 Carrier(sr) ==
   CASE sr \in IntSR -> 0 .. Cap(sr)
+    [] sr = "BM2" -> {<<x1, x2, x3, x4>> : x1 \in 0 .. 1, x2 \in 0 .. 1, x3 \in 0 .. 1, x4 \in 0 .. 1}
     [] sr \in {"Rat", "MaxTimes"} ->
          {RNorm(n, d) : n \in 0 .. 3, d \in 1 .. 3}
     [] sr = "MaxPlus" -> {<<0>>} \cup {<<1, k>> : k \in -2 .. 2}
